@@ -208,7 +208,7 @@ def make_regular_polygon_aperture(num_sides, circum_diameter, angle=0, center=No
     else:
         thetas = np.arange(int(num_sides / 2) + 1) * (num_sides - 2) * np.pi / (num_sides / 2) + angle
 
-    mask = make_rectangular_aperture(circum_diameter)
+    mask = make_rectangular_aperture(circum_diameter, center=center)
 
     def func(grid, return_with_mask=False):
         g = grid.as_('cartesian')
